@@ -244,7 +244,7 @@ class HFile:
 
     def coq(self):
         return ("{| h_name := %s; h_imports := %s; h_gen := %s; h_decls := %s |}"
-                % (cs(self.name), clist(cs(i[1] if isinstance(i, tuple) else i) for i in self.imports), clist(cs(g) for g in self.gen),
+                % (cs(self.name), clist(cs("%s %s" % i if isinstance(i, tuple) else i) for i in self.imports), clist(cs(g) for g in self.gen),
                    clist(d.coq() for d in self.decls)))
 
     def go(self, pkgname):
@@ -260,9 +260,10 @@ class HFile:
 
 
 class Cmd:
-    def __init__(self, sub, flags, types=(), star=False, file="", sep=False, extra=()):
+    def __init__(self, sub, flags, types=(), star=False, file="", sep=False, extra=(), tail=()):
         self.sub, self.flags, self.types, self.star, self.file, self.sep = sub, list(flags), list(types), star, file, sep
         self.extra = list(extra)          # e.g. -path=../dest
+        self.tail = list(tail)            # the [dir] argument when shoot is started from the module root
 
     def argv(self):
         a = [self.sub] + self.flags + self.extra
@@ -274,7 +275,7 @@ class Cmd:
             a.append("-file=" + self.file)
         if self.sep:
             a.append("-sep")
-        return a
+        return a + self.tail
 
     def line(self):
         return "shoot " + " ".join(self.argv())
@@ -283,10 +284,10 @@ class Cmd:
         f = set(self.flags)
         way = [x for x in self.flags if x.startswith("-way=")]
         return ("{| c_sub := %s; c_line := %s; c_types := %s; c_star := %s; c_file := %s; c_sepflag := %s; "
-                "c_getset := %s; c_json := %s; c_opt := %s; c_ejson := %s; c_etext := %s; c_toonly := %s; c_fromonly := %s |}"
+                "c_getset := %s; c_json := %s; c_opt := %s; c_short := %s; c_ejson := %s; c_etext := %s; c_toonly := %s; c_fromonly := %s |}"
                 % ({"new": "CNew", "enum": "CEnum", "rest": "CRest", "map": "CMap"}[self.sub], cs(self.line()),
                    clist(cs(t) for t in self.types), cb(self.star), cs(self.file), cb(self.sep),
-                   cb("-getset" in f), cb(self.sub == "new" and "-json" in f), cb("-opt" in f),
+                   cb("-getset" in f), cb(self.sub == "new" and "-json" in f), cb("-opt" in f), cb("-short" in f),
                    cb(self.sub == "enum" and "-json" in f), cb("-text" in f),
                    cb("-way=toonly" in way), cb("-way=fromonly" in way)))
 
@@ -303,6 +304,7 @@ class Pkg:
         self.dest = list(dest) if dest else []
         self.destname = destname
         self.auxcmd, self.destauxcmd = auxcmd, destauxcmd       # `shoot new -getset -type=...` run beforehand (inputs of map)
+        self.dirarg = False                # every command is started from the module root with ./<name> as [dir]
 
     # ---- rendering
     def files(self):
@@ -358,17 +360,20 @@ class Pkg:
                     return hf.name
         return ""
 
+    def tail(self):
+        return ["./" + self.name] if self.dirarg else []
+
     def extra(self):
         return ["-path=../" + self.destname] if self.sub == "map" else []
 
     def cmd_file(self, f, sep=False):
-        return Cmd(self.sub, self.flags, file=f, sep=sep, extra=self.extra())
+        return Cmd(self.sub, self.flags, file=f, sep=sep, extra=self.extra(), tail=self.tail())
 
     def cmd_star(self, sep=False):
-        return Cmd(self.sub, self.flags, star=True, sep=sep, extra=self.extra())
+        return Cmd(self.sub, self.flags, star=True, sep=sep, extra=self.extra(), tail=self.tail())
 
     def cmd_types(self, types):
-        return Cmd(self.sub, self.flags, types=types, extra=self.extra())
+        return Cmd(self.sub, self.flags, types=types, extra=self.extra(), tail=self.tail())
 
     def structs(self):
         return [d for hf in self.hfiles for d in hf.decls if isinstance(d, Struct)]
@@ -526,6 +531,8 @@ def gen_new(rng, name="p"):
                         it.hasdoc = True
     # generics (never embedded, never with -opt)
     flags = [f for f in ("-getset", "-json", "-opt") if rng.random() < {"-getset": 0.75, "-json": 0.45, "-opt": 0.3}[f]]
+    if "-opt" in flags and rng.random() < 0.4:
+        flags.append("-short")          # option functions named after the field only: shared names across the types of a run
     if "-opt" not in flags:
         for st in structs:
             if rng.random() < 0.15 and not any(isinstance(it, Embed) for it in st.items) and \
